@@ -27,7 +27,7 @@ pub const INFO: PropInfo = PropInfo {
         "scripts do not write the framing headers Content-Length / Transfer-Encoding / Connection directly (user's responsibility by the comment at response/mod.rs:151)",
         "1xx and 304 statuses are generated only without content",
     ],
-    expected_probes: &["c03.remove_then_set", "c03.short_write_fired", "c03.backpressure_fired", "c03.head_request", "c03.status_204", "c03.stream", "c03.drop_content", "c03.many_cycles", "c03.cookie", "c03.second_request_answered", "c03.status_changed_after_content", "c03.stream_then_204", "c03.from_into_response"],
+    expected_probes: &["c03.remove_then_set", "c03.short_write_fired", "c03.backpressure_fired", "c03.head_request", "c03.status_204", "c03.stream", "c03.drop_content", "c03.many_cycles", "c03.cookie", "c03.second_request_answered", "c03.status_changed_after_content", "c03.stream_then_204", "c03.from_into_response", "c03.reader_stalls_for_seconds"],
 };
 
 pub const STD: [&str; 47] = [
@@ -75,6 +75,9 @@ pub struct Scenario {
     pub window: usize,
     pub read_max: usize,
     pub read_pause_ms: u64,
+    /// the reader stops reading once, for this many ms, after having received this many bytes (long back-pressure)
+    #[serde(default)]
+    pub stall: Option<(usize, u64)>,
     /// wall clock at the start (seconds)
     pub wall: u64,
     /// Some(k): the handler's response starts as `IntoResponse::into_response` of a value of kind k instead of `Response::new(status)`
@@ -423,10 +426,13 @@ pub fn generate(_cfg: &RunCfg, _out: &mut Outcome) -> Scenario {
         })
         .sum::<usize>()
         + 400;
-    if (biggest / read_max.min(window).max(1)) as u64 * read_pause_ms > 10_000 {
+    // one long stall of the reader, with a window small enough for the server's write to pend meanwhile
+    let (stall, window) = if t::chance(1, 10) { (Some((t::pick(&[0usize, 20, 200, 2000]), t::pick(&[5_500u64, 7_000, 12_000]))), t::pick(&[17usize, 64, 300])) } else { (None, window) };
+    if (biggest / read_max.min(window).max(1)) as u64 * read_pause_ms > if stall.is_some() { 6_000 } else { 10_000 } {
         read_pause_ms = 0;
     }
     Scenario {
+        stall,
         status,
         handler_ops,
         back_ops,
@@ -597,11 +603,16 @@ fn execute(sc: &Scenario, out: &mut Outcome) {
     let obs: Rc<RefCell<(Option<Result<Resp, RecvErr>>, Option<Result<Resp, RecvErr>>)>> = Rc::new(RefCell::new((None, None)));
     let o2 = obs.clone();
     let (head, short_writes, window, read_max, pause) = (sc.head, sc.short_writes, sc.window, sc.read_max, sc.read_pause_ms);
+    let stall = sc.stall;
+    if stall.is_some() {
+        out.probe("c03.reader_stalls_for_seconds");
+    }
     simcore::spawn_task("client", "client", async move {
         let cfg = ConnCfg { short_writes, window, ..ConnCfg::default() };
         let Ok(mut c) = Client::connect(rt::ADDR, cfg).await else { return };
         let req = format!("{} /r HTTP/1.1\r\nHost: sim\r\n\r\n", if head { "HEAD" } else { "GET" });
         c.send(req.as_bytes(), 0);
+        c.stall = stall.map(|(a, ms)| (a, ms * MS));
         let r = c.recv_paced(head, DEFAULT_TIMEOUT, read_max, pause * MS).await;
         let ok = r.as_ref().map(|r| r.framing != Framing::Undetermined).unwrap_or(false);
         o2.borrow_mut().0 = Some(r);
